@@ -106,12 +106,29 @@ def names? (kv : List (String × String)) : Option Names := do
     for chains of parsed certificates `engine_sound_parsed` says this cannot happen. -/
 def why (_full : List Level) : String := "other"
 
+/-- the configured roots. Without a `bundle=` field they are given as a list
+    (`WithX509RootCerts`); with it (`WithX509RootBundle`) the field lists the PEM blocks in order:
+    `r<i>` = the i-th certificate of `roots=`, `x` = a block that is not a plain CERTIFICATE block,
+    `b` = a CERTIFICATE block that does not parse. Returns (roots the code ends up with =
+    `readBundle`, roots a relying party is configured with = every certificate of the bundle). -/
+def rootsOf (kv : List (String × String)) (roots : List Cert) : Option (Option (List Cert) × List Cert) :=
+  match lookup kv "bundle" with
+  | none => some (some roots, roots)
+  | some b => do
+    let blocks ← (b.splitOn ",").mapM fun t =>
+      if t = "x" then some Block.skip
+      else if t = "b" then some Block.badCert
+      else if t.startsWith "r" then ((t.drop 1).toString.toNat?.bind fun i => roots[i]?).map Block.cert
+      else none
+    pure (readBundle blocks, blocks.filterMap fun | .cert c => some c | _ => none)
+
 def front? (t : String) : Option Front :=
   match t with
   | "sign" => some .sign | "renew" => some .renew | "rekey" => some .rekey
-  | "acme" => some .acme | "scep" => some .scep | _ => none
+  | "acme" => some .acme | "scep" => some .scep | "renewtok" => some .renewTok | _ => none
 def frontS : Front → String
   | .sign => "sign" | .renew => "renew" | .rekey => "rekey" | .acme => "acme" | .scep => "scep"
+  | .renewTok => "renewtok"
 def ansS : FrontAns → String
   | .issued => "i" | .clientError => "c" | .serverError => "s"
 
@@ -127,15 +144,28 @@ def frontSuffix (kv : List (String × String)) (ints roots : List Cert) (n : Nam
   let demanded : Verdict :=
     if specAccept full n then coded
     else if coded = .allow then .deny .notPermitted .dns else coded
-  let items := fs.map fun f => s!"{frontS f}:{ansS (frontDemand f demanded)}"
+  -- token renewal: the certificate comes from the CA's previous, unconstrained intermediate, so
+  -- its own path carries the configured root's constraints only
+  let oldPathOk := goVerify (roots.map (·.nc)) n == .ok
+  let items := fs.map fun f =>
+    let a := match f with
+      | .renewTok => if oldPathOk then frontDemand f demanded else FrontAns.clientError
+      | _ => frontDemand f demanded
+    s!"{frontS f}:{ansS a}"
   pure (" fr=" ++ (if items.isEmpty then "-" else ",".intercalate items))
 
 def evalChain (kv : List (String × String)) : Option String := do
   let ints ← list? "|" cert? (← lookup kv "ints")
-  let roots ← list? "|" cert? (← lookup kv "roots")
+  let rootsAll ← list? "|" cert? (← lookup kv "roots")
+  let (codeRoots?, cfgRoots) ← rootsOf kv rootsAll
+  let some roots := codeRoots? | pure "no-authority"
   let n ← names? kv
-  -- the path a relying party validates: issuing CA … top intermediate, configured root
-  let full := (ints ++ roots).map (·.nc)
+  -- the path a relying party validates: issuing CA … top intermediate, then the configured
+  -- root(s) that issued the top intermediate (a retired root in the bundle is on no path)
+  let issuing := match ints.getLast? with
+    | none => []
+    | some last => cfgRoots.filter fun r => last.issuer == r.subject && r.signsLast
+  let full := (ints ++ issuing).map (·.nc)
   -- the specification decides accept / reject; the verifier model only names the class of a refusal
   let v := match specAccept full n, goVerify full n with
     | true, .ok => GoV.ok
